@@ -288,13 +288,13 @@ class VectorContainer:
         if isinstance(value, Sequence) and not isinstance(value, str):
             value_as_array = np.array(value, dtype=self.__dict__['_' + name].dtype)
 
-            if value_as_array.shape[0] != len(self.__dict__['span']):
+            if value_as_array.shape != (len(self.__dict__['span']),):
                 raise DimensionError(
                     f"Invalid assignment for '{name}': "
                     f"must be either a single value or "
-                    f"a sequence of identical length to `span` "
+                    f"a (one-dimensional) sequence of identical length to `span` "
                     f"(expected {len(self.__dict__['span'])} element[s] "
-                    f"but found {value_as_array.shape[0]})"
+                    f"but found shape {value_as_array.shape})"
                 )
 
             self.__dict__['_' + name] = value_as_array
